@@ -23,9 +23,9 @@ import (
 	"os"
 	"runtime"
 	"sort"
+	"strings"
 	"sync"
 	"sync/atomic"
-	"strings"
 	"testing"
 	"time"
 
@@ -866,12 +866,12 @@ func c07Scenarios() []c07Scenario {
 // ---- exploration (in worker subprocesses: one scenario per job) ----
 
 type c07Job struct {
-	Scenario string `json:"scenario"`
-	Bound    int    `json:"bound"`
-	MaxExecs int    `json:"max_execs"`
-	Choices  []int  `json:"choices,omitempty"` // replay one schedule
-	Replay   bool   `json:"replay,omitempty"`
-	DeadlineS int   `json:"deadline_s,omitempty"`
+	Scenario  string `json:"scenario"`
+	Bound     int    `json:"bound"`
+	MaxExecs  int    `json:"max_execs"`
+	Choices   []int  `json:"choices,omitempty"` // replay one schedule
+	Replay    bool   `json:"replay,omitempty"`
+	DeadlineS int    `json:"deadline_s,omitempty"`
 }
 
 type c07Viol struct {
@@ -881,12 +881,12 @@ type c07Viol struct {
 }
 
 type c07Res struct {
-	Execs     int       `json:"execs"`
-	MaxPoints int       `json:"max_points"`
-	MaxThreads int      `json:"max_threads"`
-	Capped    bool      `json:"capped"`
-	Outcomes  int       `json:"outcomes"`
-	Viols     []c07Viol `json:"viols"`
+	Execs      int       `json:"execs"`
+	MaxPoints  int       `json:"max_points"`
+	MaxThreads int       `json:"max_threads"`
+	Capped     bool      `json:"capped"`
+	Outcomes   int       `json:"outcomes"`
+	Viols      []c07Viol `json:"viols"`
 }
 
 func c07Norm(s string) string {
@@ -1138,7 +1138,6 @@ func c07FirstCause(stderr string) string {
 	return "unknown"
 }
 
-
 // TestVerifC07Race is the free-running add-on pass: the same scenario bodies run as plain goroutines
 // (no scheduler) in a binary built with -race, for a number of rounds. It is sampling, declared as such;
 // the deciding step is the exhaustive exploration above. A data race report fails the binary and the
@@ -1183,7 +1182,6 @@ func TestVerifC07Race(t *testing.T) {
 	}
 	fmt.Printf("RACE-PASS rounds_per_scenario=%d executions=%d\n", rounds, total)
 }
-
 
 // TestVerifC15Sched: property C15's retention clause under concurrency — the R scenarios, explored like the H
 // scenarios (all interleavings, iterative preemption bounding), reported under C15.
